@@ -68,6 +68,14 @@ Theorem T03_half_close_refuted_after_grace : grace_cut_ok = true.
 Proof. exact ob_grace_cut_witness. Qed.
 Print Assumptions T03_half_close_refuted_after_grace.
 
+(* Left alone by the endpoints the proxy comes to rest: any run made of proxy steps only is
+   bounded by a measure of the state (bytes pending, copier phases, sockets to close) — no
+   livelock; at rest T03_complete / T03_both_closed apply.  Holds for every shape. *)
+Theorem T03_proxy_quiesces : forall sh s tr s',
+  steps sh s tr s' -> (forall l, In l tr -> is_env l = false) -> (length tr + mu s' <= mu s)%nat.
+Proof. exact proxy_quiesces. Qed.
+Print Assumptions T03_proxy_quiesces.
+
 (* When both endpoints have shut down and the proxy has nothing left to do, both connections are closed. *)
 Theorem T03_both_closed : forall g e k tr s, (0 <= g)%Z ->
   steps (tables_shape g) (init e [] k) tr s ->
